@@ -365,7 +365,15 @@ func ruleR174(p *Program, r *Report) {
 			}
 			r.Check(okOwn, "R17.4", fnName(fn), "the cache stores its own copy", p.Pos(fn.Pos()), "lru.Add(key, fresh copy)", "Add keeps the caller's slice; eviction wipes it in place while the caller may still be using the key")
 		}
-		if fn.Name() == "Get" {
+		readsLRU := false
+		for _, cs := range callsIn(fn) {
+			if cs.Callee != nil && cs.Callee.Pkg() != nil && cs.Callee.Pkg().Path() == "github.com/golang/groupcache/lru" && cs.Callee.Name() == "Get" {
+				readsLRU = true
+			}
+		}
+		// whichever method looks a value up (Get itself or a helper it was split into): the stored slice must not
+		// leave the function that holds the lock - the copy is made before the lock is released
+		if readsLRU && fn.Signature.Results().Len() > 0 {
 			okCopy := false
 			for _, ret := range returnsOf(fn) {
 				v := retValue(ret, 0)
@@ -385,9 +393,14 @@ func ruleR174(p *Program, r *Report) {
 						}
 					}
 					okCopy = all
+					for _, e := range ph.Edges {
+						if _, isTA := e.(*ssa.TypeAssert); isTA {
+							r.Bad("R17.4", fnName(fn), "reader receives a copy", p.Pos(ret.Pos()), fn.Name()+" hands the stored slice itself out of the critical section; the eviction callback overwrites it with zeros while the caller is still reading (or copying) it")
+						}
+					}
 				} else if _, isTA := v.(*ssa.TypeAssert); isTA {
 					okCopy = false
-					r.Bad("R17.4", fnName(fn), "reader receives a copy", p.Pos(ret.Pos()), "Get hands out the stored slice itself; the eviction callback overwrites it with zeros while the caller may still be using it")
+					r.Bad("R17.4", fnName(fn), "reader receives a copy", p.Pos(ret.Pos()), fn.Name()+" hands the stored slice itself out of the critical section; the eviction callback overwrites it with zeros while the caller is still reading (or copying) it")
 				}
 			}
 			if okCopy {
@@ -452,4 +465,8 @@ func ruleR175(p *Program, r *Report) {
 
 func init() {
 	mut("C17", "a missing ring is created without looking again under the lock", "keystore/v2/keystore/filesystem/keyStoreLoad.go", "	err = s.pullRingUpdates(ring)\n	if err != nil {\n		// If we tried to pull non-existent key ring, create a new empty one instead.\n		if err == backend.ErrNotExist {\n			return s.pushNewRingState(ring)\n		}\n		return err\n	}\n	return nil", "	return s.pushNewRingState(ring)", "R17.5", "re-read under the lock")
+}
+
+func init() {
+	mut("C17", "lru Get split: the locked helper returns the stored slice, the copy is made after the lock is released", "keystore/lru/cache.go", "		// the stored slice is wiped in place when its entry is evicted: hand out a copy\n		result := make([]byte, len(stored))\n		copy(result, stored)\n		return result, ok", "		return stored, ok", "R17.4", "reader receives a copy")
 }
